@@ -9,7 +9,7 @@ for op, st in enumerate(['Or_', 'And_', 'Not_']):
             xform=back_xform([], refparams=(), rewrites=[
                 dict(name='functor-call-4', pat='$1 ( ) ( evt , fsm , src , tgt )', rep='call_guard ( $1 , evt , fsm , src , tgt )', min=0),
                 dict(name='functor-call-3', pat='$1 ( ) ( evt , fsm , state )', rep='call_guard3 ( $1 , evt , fsm , state )', min=0)]),
-            also_replace=['call_guard'], replay=['puml']))
+            also_replace=['call_guard'], replay=['euml', 'puml']))
 
 # ---------------- PlantUML tokenizer: bounded stand-ins (never counted as proved) ----------------
 PU = 'front/puml/puml.hpp'
